@@ -12,9 +12,10 @@ import (
 // C01: structured control flow is lowered to gotos without changing behaviour.
 
 type C01Case struct {
-	File   *File    `json:"file"`
-	Worlds []uint64 `json:"worlds"`
-	Auto   AutoCfg  `json:"auto,omitempty"`
+	File     *File             `json:"file"`
+	Worlds   []uint64          `json:"worlds"`
+	Auto     AutoCfg           `json:"auto,omitempty"`
+	Switches map[string]string `json:"switches,omitempty"`
 }
 
 func c01Src(c *C01Case) string { return Canon(c.File) }
